@@ -42,3 +42,7 @@ mod server;
 mod server_handle;
 mod shutdown_mode;
 mod worker;
+
+#[cfg(pavex_verif)]
+#[doc(hidden)]
+pub mod verif_trace;
